@@ -108,6 +108,27 @@ fn run(method: &str, cls: &[&str], tes: &[&str], expect: bool, split: usize) -> 
     }
     None
 }
+/// a declared body followed at once by the next request, everything delivered as early as the reader asks: the next request
+/// starts at the byte after the body however much of the connection buffer body and head occupy between them
+fn pipefill(n: usize, pad: usize) -> Option<String> {
+    let desc = format!("pipefill body={n} pad={pad}");
+    let mut stream = format!("POST /a HTTP/1.1\r\nContent-Length: {n}\r\n\r\n").into_bytes();
+    stream.extend(std::iter::repeat(b'x').take(n));
+    stream.extend_from_slice(format!("GET /next HTTP/1.1\r\nx-pad: {}\r\n\r\n", "p".repeat(pad)).as_bytes());
+    let res = std::panic::catch_unwind(|| {
+        let mut buf: FixedBuf<8192> = FixedBuf::new();
+        let mut rd = ScriptReader::new(vec![Step::Data(stream.clone()), Step::Eof]);
+        let addr = std::net::SocketAddr::from(([127, 0, 0, 1], 1));
+        let r1 = block_on(read_http_request(addr, &mut buf, &mut rd)).map_err(|e| format!("first request: {e:?}"))?;
+        if !matches!(r1.body, RequestBody::PendingKnown(k) if k as usize == n) { return Err(format!("first request body {:?}", r1.body)); }
+        let b = block_on(read_http_body_to_vec((&mut buf).chain(&mut rd), n)).map_err(|e| format!("body: {e:?}"))?;
+        if b.len() != Some(n as u64) { return Err(format!("body length {:?}", b.len())); }
+        let r2 = block_on(read_http_request(addr, &mut buf, &mut rd)).map_err(|e| format!("second request: {e:?}"))?;
+        Ok(r2.url.path().to_string())
+    });
+    match res { Err(_) => Some(format!("{desc} expected=next-request=/next actual=panic")), Ok(Err(e)) => Some(format!("{desc} expected=next-request=/next actual={e}")),
+        Ok(Ok(p)) => if p == "/next" { None } else { Some(format!("{desc} expected=next-request=/next actual={p}")) } }
+}
 fn main() {
     std::panic::set_hook(Box::new(|_| {}));
     let args: Vec<String> = std::env::args().collect();
@@ -128,6 +149,10 @@ fn main() {
         let w = args[2..].join(" ");
         let get = |k: &str| w.split(&format!("{k}=")).nth(1).unwrap_or("").to_string();
         let lists0 = |s: String| -> Vec<String> { s.split(']').next().unwrap().trim_start_matches('[').split("\", \"").map(|x| x.trim_matches('"').to_string()).filter(|x| !(x.is_empty() && s.starts_with("[]"))).collect() };
+        if w.starts_with("pipefill ") {
+            let g = |k: &str| -> usize { get(k).split(' ').next().unwrap().parse().unwrap() };
+            match pipefill(g("body"), g("pad")) { Some(m) => { println!("WITNESS {m}"); std::process::exit(1) } None => { println!("OK witness no longer fails"); std::process::exit(0) } }
+        }
         if w.starts_with("derived ") {
             let e = lists0(get("expect")); let c = lists0(get("ct"));
             let e: Vec<&str> = e.iter().map(String::as_str).collect(); let c: Vec<&str> = c.iter().map(String::as_str).collect();
@@ -160,6 +185,9 @@ fn main() {
     for n_ in names.iter() { ct_sets.push(vec![n_]); }
     for w in with_param.iter() { ct_sets.push(vec![w.as_str()]); }
     for e in &exp_sets { for c in &ct_sets { n += 1; if let Some(m) = derived(e, c) { if found.len() < 8 { found.push(m) } } } }
+    for body in [1usize, 100, 4000, 7000, 7900, 8100, 8192, 9000, 20000] { for pad in [0usize, 200, 1000, 4000, 8000] {
+        n += 1; if let Some(m) = pipefill(body, pad) { if found.len() < 8 { found.push(m) } }
+    } }
     println!("EVALUATED {n}");
     for f in &found { println!("WITNESS {f}"); }
     std::process::exit(if found.is_empty() { 0 } else { 1 });
